@@ -66,6 +66,8 @@ const (
 var c11PathNames = []string{"--val=V", "--val V", "default tag", "environment", "positional", "ini entry"}
 
 // c11Run feeds text to the option through one path and returns (accepted, value, error).
+var c11HelpFirst bool // per leaf: WriteHelp is called on the parser before the value is given
+
 var c11EditedChoices []string // per leaf: the option was declared with these choices, used once, and then given cd's choices through Option.Choices
 
 func c11Run(cd *c11Decl, path int, text string) (bool, reflect.Value, error, bool) {
@@ -83,6 +85,10 @@ func c11Run(cd *c11Decl, path int, text string) (bool, reflect.Value, error, boo
 		}
 		o.Choices = final
 		b.Vals[cd.opt].Set(reflect.Zero(b.Vals[cd.opt].Type()))
+	}
+	if c11HelpFirst {
+		var sink bytes.Buffer
+		p.WriteHelp(&sink)
 	}
 	var err error
 	val := b.Vals[cd.opt]
@@ -269,9 +275,13 @@ func c11Bounds(t *decl.Type) []*big.Int {
 
 func init() {
 	body := func(c *explore.Ctx) {
-		part := c.Choose(6)
-		c11IgnoreUnknown = part != 0 && part != 2 && part != 5 && c.Bool()
+		part := c.Choose(7)
+		c11IgnoreUnknown = part != 0 && part != 2 && part != 5 && part != 6 && c.Bool()
 		switch part {
+		case 6: // an INI value is everything after the '=' (trimmed): what looks like a trailing comment belongs to it
+			t := []*decl.Type{decl.TUint16, decl.TString, decl.TInt}[c.Choose(3)]
+			text := []string{"80 #1", "80 ;1", "a #b", "a ; b", "80#1", "8;0", "80 # 8080"}[c.Choose(7)]
+			c11Check(c, c11Get(t, 10, nil), c11PathIni, text, "ini-comment-like-values")
 		case 5: // a list in an environment variable, split on env-delim: every piece is a value of the element type
 			types := []*decl.Type{decl.TInts, decl.TStrings, decl.TMapSI, decl.TUint8s}
 			t := types[c.Choose(len(types))]
@@ -403,7 +413,7 @@ func init() {
 			}
 			c11Check(c, c11Get(t, 10, nil), path, text, "float-witnesses")
 		case 4: // choices
-			sets := [][]string{{"cat", "dog"}, {"1", "10"}, {"a b", "Cat", "c"}}
+			sets := [][]string{{"cat", "dog"}, {"1", "10"}, {"a b", "Cat", "c"}, {"rw,sync", "ro"}, {"c1", "c2", "c3", "c4", "c5", "c6", "c7"}}
 			si := c.Choose(len(sets))
 			t := decl.TString
 			if si == 1 {
@@ -413,14 +423,17 @@ func init() {
 			c11EditedChoices = nil
 			if c.Bool() && (path == c11PathInline || path == c11PathSeparate) {
 				// the same option first carried another choice set (sharing one member) and was used once with it
-				c11EditedChoices = [][]string{{"cat", "bird"}, {"10", "2"}, {"c", "zzz"}}[si]
+				c11EditedChoices = [][]string{{"cat", "bird"}, {"10", "2"}, {"c", "zzz"}, {"ro", "x"}, {"c7", "c9"}}[si]
 				defer func() { c11EditedChoices = nil }()
 			}
+			// the help text is rendered before the value is given (rendering must not touch the declared choices)
+			c11HelpFirst = c.Bool()
+			defer func() { c11HelpFirst = false }()
 			var cands []string
 			for _, ch := range sets[si] {
 				cands = append(cands, ch, ch[:len(ch)-1], ch+"x", strings.ToUpper(ch), strings.ToLower(ch), " "+ch, ch+" ", "0"+ch, "+"+ch)
 			}
-			cands = append(cands, "", "zzz", "2", "do", "ca", "bird")
+			cands = append(cands, "", "zzz", "2", "do", "ca", "bird", "rw", "sync", "...", "c9")
 			text := cands[c.Choose(len(cands))]
 			c11Check(c, c11Get(t, 10, sets[si]), path, text, "choices")
 		}
@@ -433,7 +446,7 @@ func init() {
 		Rule: "(i) every value of int8/uint8/int16/uint16 plus two out-of-range neighbours on each side, rendered in every base 2..36 in both letter cases; " +
 			"(ii) min-1,min,min+1,-1,0,1,max-1,max,max+1,2^64,2^128,-2^63,-2^63-1 for int/int16/int32/int64/uint/uint16/uint32/uint64 in bases 10,2,8,16,36, with and without a leading zero, through 6 paths (--val=V, --val V, default tag, environment, positional, INI entry); " +
 			"(iii) every string of length <= 4 over {0 1 9 a f z - + . e x _ space I n :} for 13 types x bases 10,2,16,36 (thorough: also via default tag and positional); (iv) 56 float rounding/limit/spelling witnesses x sign x float32/float64 x 6 paths; " +
-			"(v) choice sets (also: a different set first, one use, then the set edited through Option.Choices) x near-miss values (prefix, suffix, case, padding, leading zero/plus) x 4 paths; (vi) lists in an environment variable split on env-delim {',', ';;'} for []int, []string, map[string]int, []uint8: 8 piece patterns with empty, blank-padded and unconvertible pieces (every piece is a value of the element type: an empty piece is an element of a []string and a fault for a number); (ii), (iv) and (v) also with IgnoreUnknown set on the parser; oracle: own digit parser + math/big (integers), big.Rat nearest-even (floats), three classes must-accept / must-reject / grey; " +
+			"(v) choice sets (incl. a member containing a comma and a set of seven; also: the help text rendered first; also: a different set first, one use, then the set edited through Option.Choices) x near-miss values (prefix, suffix, case, padding, leading zero/plus) x 4 paths; (vi) lists in an environment variable split on env-delim {',', ';;'} for []int, []string, map[string]int, []uint8: 8 piece patterns with empty, blank-padded and unconvertible pieces (every piece is a value of the element type: an empty piece is an element of a []string and a fault for a number); (vii) INI values that look as if they ended in a comment (80 #1, a ; b ...) for uint16, int, string; (ii), (iv) and (v) also with IgnoreUnknown set on the parser; oracle: own digit parser + math/big (integers), big.Rat nearest-even (floats), three classes must-accept / must-reject / grey; " +
 			"distinct = distinct (type, base, class, accepted?, stored value)",
 		Assumptions:  []string{"duration syntax is Go's time.ParseDuration (trusted)", "bool spellings other than true/false, a leading '+', inf/nan/hex-float/underscore spellings are grey: acceptance not asserted, exactness is"},
 		RequiredHits: []string{"must-accept", "must-reject", "grey", "not-a-choice"},
